@@ -223,6 +223,54 @@ def impl_balanced(case):
     return dict(direct=_guard(one), wrapper=_guard(wrap))
 
 
+def _grid_of(tree, depth, iv):
+    a, L = F(*iv[0]), F(*iv[1])
+    return [a] + [a + L * k / 2 ** depth for k, _ in tree] + [a + L], [0] + [l for _, l in tree] + [0]
+
+
+def impl_global(case):
+    """History on ONE GlobalRombergGrid / GlobalBalancedRombergGrid object: set_grid with per-dimension grids
+    (same trees, different intervals) step after step; observes the per-dimension coordinates and weights."""
+    from sparseSpACE.Extrapolation import SliceGrouping, SliceVersion, SliceContainerVersion
+    from sparseSpACE.Grid import GlobalRombergGrid, GlobalBalancedRombergGrid
+    dim = case['dim']
+
+    def fl(q):
+        x = q.numerator / q.denominator
+        assert F(x) == q
+        return x
+
+    def run():
+        out = []
+        gg = None
+        for step in case['steps']:
+            pts, lvs = [], []
+            for d in range(dim):
+                g, l = _grid_of(case['trees'][d], case['depths'][d], step[d])
+                pts.append([fl(x) for x in g])
+                lvs.append(list(l))
+            a = [p[0] for p in pts]
+            b = [p[-1] for p in pts]
+            if gg is None:
+                if case['wrapper'] == 'balanced':
+                    gg = GlobalBalancedRombergGrid(a, b)
+                else:
+                    g_, s_, c_ = case['variant']
+                    gg = GlobalRombergGrid(a, b, slice_grouping=SliceGrouping(g_), slice_version=SliceVersion(s_),
+                                           container_version=SliceContainerVersion(c_))
+            else:   # the same object re-used for another domain
+                gg.a, gg.b = a, b
+                import numpy as np
+                gg.length = np.array(b) - np.array(a)
+            if hasattr(gg, 'initialize_grid') and case['wrapper'] != 'balanced':
+                gg.initialize_grid()
+            gg.set_grid(pts, lvs)
+            out.append([dict(coords=[sx.rat(float(x)) for x in gg.get_coordinates_dim(d)],
+                             weights=[sx.rat(float(w)) for w in gg.weights[d]]) for d in range(dim)])
+        return out
+    return _guard(run)
+
+
 def impl_tree(case):
     from sparseSpACE.Extrapolation import GridBinaryTree
     grid = _fl(case['grid'])
@@ -261,7 +309,8 @@ def impl_any(tagged):
     return IMPL[part](case)
 
 
-IMPL.update(sliced=impl_sliced, support=impl_support, balanced=impl_balanced, tree=impl_tree, factory=impl_factory)
+IMPL.update(sliced=impl_sliced, support=impl_support, balanced=impl_balanced, tree=impl_tree, factory=impl_factory,
+            glob=impl_global)
 
 
 def run_all_impl(parts):
@@ -628,6 +677,144 @@ def check_factory(chk, cases, impl=None):
                      'm<=9; non-trivial = m>=2', [])
 
 
+def gen_global(rng, tier, wrapper=None):
+    wrapper = wrapper or rng.choice(['romberg', 'romberg', 'balanced'])
+    dim = rng.choice([1, 2, 2])
+    depth = rng.choice([1, 2, 3, 3, 4, 5 if tier == 'quick' else 6])
+    t0 = rand_tree(rng, depth, rng.choice([0.5, 0.7, 0.9, 1.0]), full=(wrapper == 'balanced'))
+    same = rng.random() < 0.75           # identical level vectors in all dimensions
+    trees, depths = [], []
+    for d in range(dim):
+        if d == 0 or same:
+            trees.append(t0); depths.append(depth)
+        else:
+            dd = rng.choice([1, 2, 3, 4])
+            trees.append(rand_tree(rng, dd, 0.8, full=(wrapper == 'balanced'))); depths.append(dd)
+    lengths = [F(1), F(2), F(1, 2), F(3), F(1, 4), F(5, 2), F(4)]
+
+    def ivs(scale_from=None):
+        out = []
+        ls = rng.sample(lengths, dim)     # different lengths in different dimensions
+        for d in range(dim):
+            a = rng.choice([F(0), F(0), F(1), F(-1), F(1, 2), F(2)])
+            out.append([[a.numerator, a.denominator], [ls[d].numerator, ls[d].denominator]])
+        return out
+    s1 = ivs()
+    s2 = []
+    for d in range(dim):                   # scaled (and sometimes shifted) interval, never the same length
+        L = F(*s1[d][1]) * rng.choice([2, F(1, 2), 3, 4, F(1, 4)])
+        a = F(*s1[d][0]) + rng.choice([0, 0, 1, -1])
+        s2.append([[a.numerator, a.denominator], [L.numerator, L.denominator]])
+    steps = [s1, s2, s1] if rng.random() < 0.8 else [s1, s2, ivs(), s1]
+    variant = list(rng.choice([(g, sv, c) for g in (1, 2, 3) for sv in (1, 2) for c in (1, 1, 4)]))
+    return dict(kind='global', wrapper=wrapper, dim=dim, trees=[[list(x) for x in t] for t in trees], depths=depths,
+                steps=steps, variant=variant)
+
+
+def check_global(chk, cases, impl=None):
+    if impl is None:
+        impl = run_impl(impl_global, cases, limit=300)
+    mcases, idx = [], []
+    for i, c in enumerate(cases):
+        for k, step in enumerate(c['steps']):
+            for d in range(c['dim']):
+                g, l = _grid_of(c['trees'][d], c['depths'][d], step[d])
+                if c['wrapper'] == 'balanced':
+                    mcases.append((1, [g, l]))
+                else:
+                    mcases.append((0, [c['variant'][0], c['variant'][1], c['variant'][2], 0, g, l]))
+                idx.append((i, k, d, g))
+    mres = run_model(11, mcases, nproc=8)
+    by_case = {}
+    for (i, k, d, g), mr in zip(idx, mres):
+        by_case.setdefault(i, []).append((k, d, g, mr))
+    keys, samples = [], []
+    for i, c in enumerate(cases):
+        st, r = impl[i]
+        chk.count('global:%s:d=%d' % (c['wrapper'], c['dim']))
+        sig = dict(wrapper=c['wrapper'], dim=c['dim'])
+        if c['wrapper'] == 'romberg':
+            sig.update(grouping=GROUPINGS[c['variant'][0]], slice=SLICES[c['variant'][1]], container=CONTAINERS[c['variant'][2]])
+        if st != 'ok':
+            chk.violation('corr:C11/global', 'impl-worker-failed', {'status': st}, c, dict(impl=str(r)), failing_input=False)
+            continue
+        if r[0] != 'ok':
+            chk.violation('oracle:no_exception', 'global-grid-exception', dict(sig, exc=r[1] if r[0] == 'exc' else 'AssertionError'), c,
+                          dict(impl=str(r)[:400]))
+            continue
+        chk.traces += 1
+        bad = None
+        for (k, d, g, mr) in by_case[i]:
+            o = r[1][k][d]
+            if isinstance(mr, tuple) or sx.is_err(mr):
+                chk.violation('corr:C11/global', 'global-model-rejects', dict(sig), dict(c, steps=c['steps'][:k + 1]), dict(model=str(mr)[:300]),
+                              failing_input=False)
+                bad = 'model'
+                break
+            if c['wrapper'] == 'balanced':
+                mw = [sx.q(x) for x in mr[0]][1:-1]
+                pts = g[1:-1]
+                consistent = True
+            else:
+                mw = [sx.q(x) for x in mr[3]]
+                pts = g
+                consistent = c['variant'][2] == 1 or not any(z >= 2 for z in mr[2])
+            a_, b_ = g[0], g[-1]
+            tol = tol_of(g)
+            diff = []
+            if o['coords'] != pts:
+                diff.append('coordinates')
+            if not close(mw, o['weights'], tol):
+                diff.append('weights')
+            why = None
+            if consistent and len(o['weights']) == len(pts):
+                s0 = sum(o['weights'])
+                s1 = sum(w * x for w, x in zip(o['weights'], pts))
+                if abs(s0 - (b_ - a_)) > 100 * tol:
+                    why = ('step %d, dimension %d: the weights on [%s,%s] sum to %.12g instead of %s' % (k, d, a_, b_, float(s0), b_ - a_))
+                elif abs(s1 - (b_ * b_ - a_ * a_) / 2) > 100 * tol * (1 + abs(a_) + abs(b_)):
+                    why = ('step %d, dimension %d: first moment on [%s,%s] is %.12g instead of %s' % (k, d, a_, b_, float(s1), (b_ * b_ - a_ * a_) / 2))
+            elif len(o['weights']) != len(pts):
+                why = 'step %d, dimension %d: %d weights for %d points' % (k, d, len(o['weights']), len(pts))
+            if diff or why:
+                # the history up to and including the failing step is the failing input
+                chk.violation('corr:C11/global' if diff else 'oracle:global_weights_consistent', 'global-grid-differs',
+                              dict(sig, observable=','.join(diff) or 'property'), dict(c, steps=c['steps'][:k + 1]),
+                              dict(step=k, dimension=d, interval=[str(a_), str(b_)], differs=diff, property_predicate=why or 'holds',
+                                   impl_weights=[float(w) for w in o['weights']][:40], model_weights=[float(w) for w in mw][:40]),
+                              failing_input=bool(why))
+                bad = 'diff'
+                break
+        if bad is None:
+            lens = set(tuple(st_[d][1]) for st_ in c['steps'] for d in range(c['dim']))
+            if len(lens) >= 2:
+                keys.append(json_key(c))
+            if len(samples) < 2 and c['dim'] == 2:
+                samples.append(dict(wrapper=c['wrapper'], steps=c['steps'], levels=[[0] + [l for _, l in t] + [0] for t in c['trees']],
+                                    weights_last_step=[[float(w) for w in dd['weights']] for dd in r[1][-1]]))
+    chk.record_cases(len(mcases), keys, 'GlobalRombergGrid / GlobalBalancedRombergGrid histories on one object: set_grid in d=1..2 with '
+                     'per-dimension intervals of different lengths and (mostly) identical level vectors, then a scaled domain, then the '
+                     'first again; every dimension of every step compared with the model and the oracle; non-trivial = at least two '
+                     'different interval lengths met the same object', samples)
+
+
+def json_key(c):
+    import json
+    return json.dumps([c['wrapper'], c['dim'], c['trees'], c['steps'], c['variant']], sort_keys=True)
+
+
+# fixed histories (always run first): the same tree on [0,1] x [1,3]; one object re-used for a scaled interval
+GLOBAL_CORPUS = [
+    dict(kind='global', wrapper='romberg', dim=2, trees=[[[1, 2], [2, 1], [3, 2]]] * 2, depths=[2, 2],
+         steps=[[[[0, 1], [1, 1]], [[1, 1], [2, 1]]]], variant=[1, 1, 1]),
+    dict(kind='global', wrapper='romberg', dim=1, trees=[[[1, 1]]], depths=[1],
+         steps=[[[[0, 1], [1, 1]]], [[[0, 1], [2, 1]]], [[[0, 1], [1, 1]]]], variant=[2, 1, 1]),
+    dict(kind='global', wrapper='balanced', dim=2, trees=[[[1, 2], [2, 1], [3, 2]]] * 2, depths=[2, 2],
+         steps=[[[[0, 1], [1, 1]], [[1, 1], [2, 1]]], [[[0, 1], [3, 1]], [[1, 1], [1, 2]]], [[[0, 1], [1, 1]], [[1, 1], [2, 1]]]],
+         variant=[1, 1, 1]),
+]
+
+
 # exemplar of the known finding (kept first in the corpus)
 SIMPSON_EXEMPLAR = dict(kind='valid', grid=[[0, 1], [1, 2], [1, 1]], levels=[0, 1, 0], variants=[[2, 1, 4, 0]])
 
@@ -699,7 +886,9 @@ def run(chk):
         a, L = interval(rng)
         fc.append(dict(a=[a.numerator, a.denominator], b=[(a + L).numerator, (a + L).denominator],
                        version=rng.choice([1, 1, 2, 3]), m=rng.randrange(0, 10)))
-    impl = run_all_impl([('sliced', cases), ('support', sc), ('balanced', bc), ('tree', tc), ('factory', fc)])
+    # --- Grid.py wrappers as histories on one object
+    gc = list(GLOBAL_CORPUS) + [gen_global(rng, chk.tier) for _ in range(chk.n(150, 2500))]
+    impl = run_all_impl([('sliced', cases), ('support', sc), ('balanced', bc), ('tree', tc), ('factory', fc), ('glob', gc)])
     lap('implementation')
     check_sliced(chk, cases, impl['sliced'])
     lap('sliced')
@@ -707,6 +896,7 @@ def run(chk):
     check_balanced(chk, bc, impl['balanced'])
     check_tree(chk, tc, impl['tree'])
     check_factory(chk, fc, impl['factory'])
+    check_global(chk, gc, impl['glob'])
     lap('others')
 
 
@@ -714,7 +904,9 @@ def replay(chk, rep):
     c = rep['case']
     check = rep.get('check', '')
     sub = chk
-    if 'variants' in c:
+    if c.get('kind') == 'global':
+        check_global(sub, [c])
+    elif 'variants' in c:
         check_sliced(sub, [dict(c, wrapper=True)])
     elif 'version' in c:
         check_factory(sub, [c])
